@@ -184,9 +184,23 @@ def run_placer(chk, drv, R, lines, k, origin):
         mconf = [c for c in fields[2][len('conflicts='):].split(',') if c]
         chk.count('placer', 'solve:positions-%s' % ('differ' if diffs else 'same'))
         chk.count('placer', 'conflicts:model-%s/lcapy-%s' % ('some' if mconf else 'none', 'some' if real_conf else 'none'))
-        steps = [s for s in fields[4][len('steps='):].split() if s]
+        steps = [s.split(':') for s in fields[4][len('steps='):].split() if s]
+        splits = [f for f in steps if f[7] == 'split']
         chk.count('placer', 'longest-path-certificate:%s' % fields[5][len('certified='):])
-        chk.count('placer', 'even-split-steps:%s' % ('0' if not steps else '1-2' if len(steps) <= 2 else '3+'))
+        chk.count('placer', 'even-split-steps:%s' % ('0' if not splits else '1-2' if len(splits) <= 2 else '3+'))
+        # which of the proved local mechanisms is present when check_positions reports a conflict:
+        #   (a) even_split_closes_iff: a split step that does not arrive at the known gnode;
+        #   (b) a dangling gnode placed at the distance of a path THROUGH other unplaced gnodes (finding C20-F20b)
+        nonclosing = 0
+        for f in splits:
+            E, sep, n, W, m = Fraction(f[2]), Fraction(f[3]), int(f[4]), Fraction(f[5]), int(f[6])
+            stretch = max((sep - E) / n, 0) if n else Fraction(0)
+            if W + m * stretch != sep:
+                nonclosing += 1
+        through = sum(1 for f in steps if f[7].startswith('dangling') and int(f[8]) > 1)
+        if mconf or nonclosing or through:
+            chk.count('placer', 'conflicts:%s|non-closing-split:%s|dangling-through-unplaced:%s' %
+                      ('some' if mconf else 'none', 'some' if nonclosing else 'none', 'some' if through else 'none'))
         if diffs:
             bad = {'what': 'placer:positions-%s' % ax, 'netlist': lines, 'spacing': fstr(k), 'detail': diffs[:6], 'graph': ser[ax][:800]}
             break
